@@ -261,3 +261,6 @@ def ORACLE(v, scn, out):
     else:
         return None
     return bad
+
+from checks import migrate as _migrate
+_migrate.attach(globals(), 'reward')
